@@ -639,6 +639,10 @@ impl<T: SizedShape, const N: usize> SizedShape for [T; N] {
 // ---------------------------------------------------------------------------
 // FlatVec
 
+fn arr_of<T: SizedShape, const N: usize>(it: &[Value]) -> [T; N] {
+    core::array::from_fn(|i| T::make(&it[i]))
+}
+
 impl<T: SizedShape, L: LenShape> Shape for FlatVec<T, L> {
     fn desc() -> Desc {
         Desc::Vec { elem: Box::new(T::desc()), len: L::lend() }
@@ -660,6 +664,11 @@ impl<T: SizedShape, L: LenShape> Shape for FlatVec<T, L> {
             (0, 2) => k.call(vec::FromArray([T::make(&it[0]), T::make(&it[1])])),
             (0, 3) => k.call(vec::FromArray([T::make(&it[0]), T::make(&it[1]), T::make(&it[2])])),
             (0, 4) => k.call(vec::FromArray([T::make(&it[0]), T::make(&it[1]), T::make(&it[2]), T::make(&it[3])])),
+            (0, 5) => k.call(vec::FromArray(arr_of::<T, 5>(it))),
+            (0, 8) => k.call(vec::FromArray(arr_of::<T, 8>(it))),
+            // arrays longer than a one-byte length type can count
+            (0, 256) => k.call(vec::FromArray(arr_of::<T, 256>(it))),
+            (0, 257) => k.call(vec::FromArray(arr_of::<T, 257>(it))),
             (2, 0) => k.call(vec::Empty),
             (2, _) => {
                 let items: Vec<T> = it.iter().map(|x| T::make(x)).collect();
